@@ -1,7 +1,9 @@
 (* C17 - executable model of frappy/persistent.py (PersistentMixin: __init__, loadPersistentData, loadParameters,
    saveParameters, __save_params, factory_reset), of the pieces of frappy/modulebase.py it relies on (configured
    values and writeDict registration in Module.__init__, announceUpdate callbacks, writeInitParams) and of
-   export_value / import_value of frappy/datatypes.py.  No proofs in this file.
+   export_value / import_value of frappy/datatypes.py (as repaired by the fix: commits up to 9c57815: array and
+   tuple import check kind and length, scaled import takes integers only, blob import is strict base64; struct
+   import still admits missing optional members).  No proofs in this file.
    CPython behaviour enters as data: the number of chunks json.dump writes (n), integral floats (FInt),
    scale*n and base64 as finite tables carried by the datatype, what json.load makes of foreign bytes (pj). *)
 From Coq Require Import List Arith ZArith NArith Bool.
@@ -118,15 +120,6 @@ Fixpoint rassoc_fl (f : fl) (l : list (Z * fl)) : option Z :=
 Fixpoint rassoc_str (s : str) (l : list (str * str)) : option str :=
   match l with [] => None | (b, t) :: r => if str_eqb s t then Some b else rassoc_str s r end.
 
-(* what python iterates over *)
-Definition elems_of (j : val) : option (list val) :=
-  match j with
-  | VSeq l => Some l
-  | VStr s => Some (map (fun c => VStr [c]) s)
-  | VMap kvs => Some (map (fun kv => VStr (fst kv)) kvs)
-  | _ => None
-  end.
-
 Definition str_ok (minc maxc : nat) (utf8 : bool) (s : str) : bool :=
   (utf8 || forallb (fun c => N.ltb c 128) s) && Nat.leb minc (length s) && Nat.leb (length s) maxc
   && negb (existsb (N.eqb 0) s).
@@ -149,22 +142,27 @@ Fixpoint import (d : dtype) (j : val) {struct d} : option val :=
   | DFloat => option_map VFlt (num_of j)
   | DScaled tab => match num_of j with Some (FInt z) => option_map VFlt (assoc_Z z tab) | _ => None end
   | DBlob tab => match j with VStr s => option_map VBytes (rassoc_str s tab) | _ => None end
-  | DArray d' _ _ =>
-      match elems_of j with
-      | Some l => option_map VSeq (all_some (map (import d') l))
-      | None => None
+  | DArray d' mn mx =>
+      (* check_type first: a list (no string, no object) of mn..mx elements *)
+      match j with
+      | VSeq l => if Nat.leb mn (length l) && Nat.leb (length l) mx
+                  then option_map VSeq (all_some (map (import d') l)) else None
+      | _ => None
       end
   | DTuple ds =>
-      match elems_of j with
-      | Some l =>
-          option_map VSeq
-            ((fix go (ds : list dtype) (l : list val) : option (list val) :=
-                match ds, l with
-                | d1 :: ds', x :: l' =>
-                    match import d1 x, go ds' l' with Some a, Some r => Some (a :: r) | _, _ => None end
-                | _, _ => Some []
-                end) ds l)
-      | None => None
+      (* check_type first: a list of exactly as many elements as members *)
+      match j with
+      | VSeq l =>
+          if Nat.eqb (length l) (length ds) then
+            option_map VSeq
+              ((fix go (ds : list dtype) (l : list val) : option (list val) :=
+                  match ds, l with
+                  | d1 :: ds', x :: l' =>
+                      match import d1 x, go ds' l' with Some a, Some r => Some (a :: r) | _, _ => None end
+                  | _, _ => Some []
+                  end) ds l)
+          else None
+      | _ => None
       end
   | DStruct ms opt =>
       match j with
